@@ -2,7 +2,9 @@ package main
 
 // facts.go: collects, for one message, the finite backend facts the Coq model and spec may ask for
 // (always computed with the view's own pure query functions, never by watching what Go asked), and prints
-// them as a Coq `facts` term.
+// them as a Coq `facts` term. Committees, committee counts, proposers and the context's epoch are read from a context
+// computed from the entry's STATE alone (Entry.fresh), the sync committee and the domains from the state / the fork
+// schedule: not from the shared, long-lived EpochsContext objects the validators get.
 
 import (
 	"fmt"
@@ -91,14 +93,11 @@ func (f *Facts) Domain(typ common.BLSDomainType, epoch common.Epoch) {
 	}
 }
 func (f *Facts) BlockSlotDomains(slot common.Slot) {
+	// fork digest and proposer domain of the fork version in force at the slot (the world's own fork schedule)
 	dg := f.v.W.DigestAt(slot)
 	f.digests[uint64(slot)] = bytesN(dg[:])
-	version := f.v.W.Spec.ForkVersion(slot)
-	dom := common.ComputeDomain(common.DOMAIN_BEACON_PROPOSER, version, f.v.W.GVR)
+	dom := common.ComputeDomain(common.DOMAIN_BEACON_PROPOSER, f.v.W.ForkVersionAt(slot), f.v.W.GVR)
 	f.pdomains[uint64(slot)] = bytesN(dom[:])
-	// the digest the Go code compares with is computed from Spec.ForkVersion as well
-	fd := common.ComputeForkDigest(version, f.v.W.GVR)
-	f.digests[uint64(slot)] = bytesN(fd[:])
 }
 func (f *Facts) BadBlock(root common.Root) {
 	if f.v.IsBadBlock(root) {
@@ -160,7 +159,7 @@ func (f *Facts) CommitteeCount(e *Entry, epoch common.Epoch) (uint64, bool) {
 	x := f.ent(e)
 	var n uint64
 	var err error
-	if panicked, _ := Catch(func() { n, err = e.epc.GetCommitteeCountPerSlot(epoch) }); panicked || err != nil {
+	if panicked, _ := Catch(func() { n, err = e.fresh().GetCommitteeCountPerSlot(epoch) }); panicked || err != nil {
 		return 0, false
 	}
 	x.counts[uint64(epoch)] = fmt.Sprintf("(%d,%d)", uint64(epoch), n)
@@ -168,7 +167,7 @@ func (f *Facts) CommitteeCount(e *Entry, epoch common.Epoch) (uint64, bool) {
 }
 func (f *Facts) Committee(e *Entry, slot common.Slot, index common.CommitteeIndex) []common.ValidatorIndex {
 	x := f.ent(e)
-	comm, err := e.epc.GetBeaconCommittee(slot, index)
+	comm, err := e.fresh().GetBeaconCommittee(slot, index)
 	if err != nil {
 		return nil
 	}
@@ -177,7 +176,7 @@ func (f *Facts) Committee(e *Entry, slot common.Slot, index common.CommitteeInde
 }
 func (f *Facts) Proposer(e *Entry, slot common.Slot) {
 	x := f.ent(e)
-	p, err := e.epc.GetBeaconProposer(slot)
+	p, err := e.fresh().GetBeaconProposer(slot)
 	if err == nil {
 		x.proposers[uint64(slot)] = fmt.Sprintf("(%d,%d)", uint64(slot), uint64(p))
 	}
@@ -223,8 +222,8 @@ func (f *Facts) Validator(e *Entry, i common.ValidatorIndex) {
 }
 func (f *Facts) StateDomain(e *Entry, typ common.BLSDomainType, epoch common.Epoch) {
 	x := f.ent(e)
-	d, err := common.GetDomain(e.st, typ, epoch)
-	must(err)
+	// get_domain(state, typ, epoch) from the world's own fork schedule (not zrnt's reading of state.fork)
+	d := f.v.W.StateDomainAt(e.slot, typ, epoch)
 	x.domains[[2]uint64{dtypeCode(typ), uint64(epoch)}] = fmt.Sprintf("(%d,%d,%s)", dtypeCode(typ), uint64(epoch), bytesN(d[:]))
 }
 
@@ -265,7 +264,7 @@ func (x *entryFacts) coq(v *View) string {
 		}
 	}
 	return fmt.Sprintf("(%d,Build_efacts %d %s %s %d %s %s %s %s %s %d %s %s %s)", x.id, uint64(e.slot), CoqBool(epcErr == nil), CoqBool(stErr == nil),
-		uint64(e.epc.CurrentEpoch.Epoch), CoqList(sortedVals(x.counts)), CoqList(sortedVals(x.comms)), CoqList(sortedVals(x.proposers)), sync,
+		uint64(e.fresh().CurrentEpoch.Epoch), CoqList(sortedVals(x.counts)), CoqList(sortedVals(x.comms)), CoqList(sortedVals(x.proposers)), sync,
 		CoqList(sortedVals(x.pubkeys)), nv, CoqList(sortedVals(x.vals)), CoqList(sortedVals(x.domains)), CoqList(sortedVals(x.broots)))
 }
 
